@@ -204,7 +204,19 @@ pub fn gen_case(rng: &mut Rng) -> ImgCase {
         4 => Transform::scale(-rng.range(0.5, 2.) as f32, rng.range(0.5, 2.) as f32).then_translate(euclid::vec2(rng.range(0., 8.) as f32, 0.)),
         5 => Transform::rotation(euclid::Angle::radians(rng.range(0., 6.28) as f32)).then_translate(euclid::vec2(rng.range(-4., 8.) as f32, rng.range(-4., 8.) as f32)),
         6 => Transform::translation(rng.int(-3, 3) as f32 + 0.5, rng.int(-3, 3) as f32 + 0.5),
-        7 => Transform::translation(rng.range(-200., 200.) as f32, rng.range(-200., 200.) as f32), // far beyond every edge
+        7 if rng.chance(0.7) => Transform::translation(rng.range(-200., 200.) as f32, rng.range(-200., 200.) as f32), // far beyond every edge
+        7 => {
+            // whole-number translations in the millions (exact in f32): a repeated image is still in phase there
+            let far = |rng: &mut Rng| -> f32 {
+                match rng.below(4) {
+                    0 => rng.int(-12, 12) as f32,
+                    1 => (rng.int(1 << 20, 1 << 24) * if rng.chance(0.5) { 1 } else { -1 }) as f32,
+                    2 => ((1i64 << 20) + rng.int(-3, 3)) as f32 * if rng.chance(0.5) { 1. } else { -1. },
+                    _ => (rng.int(30000, 70000) * if rng.chance(0.5) { 1 } else { -1 }) as f32,
+                }
+            };
+            Transform::translation(far(rng), far(rng))
+        }
         _ => Transform::scale(0.5, 0.5).then_translate(euclid::vec2(0.25, 0.25)),
     };
     // exact mirror images with whole translations (a y-up user space, a flipped image)
@@ -222,6 +234,10 @@ pub fn gen_case(rng: &mut Rng) -> ImgCase {
         6 => Transform::translation(-cx, -cy).then_rotate(euclid::Angle::radians(rng.range(0., 6.28) as f32)).then_translate(euclid::vec2(cx, cy)),
         _ => Transform::translation(-cx, -cy).then_scale(rng.range(0.5, 3.) as f32, rng.range(0.5, 3.) as f32).then_translate(euclid::vec2(cx, cy)),
     };
+    // (whole-number translations in the millions are for the whole-number route only: everywhere else image
+    // coordinates have to stay within the 16.16 range)
+    let far_int = src_t.m31.abs() > 20000. || src_t.m32.abs() > 20000.;
+    let ctm = if far_int { if rng.chance(0.5) { Transform::identity() } else { Transform::translation(rng.int(-6, 6) as f32, rng.int(-6, 6) as f32) } } else { ctm };
     let alpha = match rng.below(5) {
         0 => 0.3,
         1 => 0.0,
@@ -230,7 +246,7 @@ pub fn gen_case(rng: &mut Rng) -> ImgCase {
     };
     // wide surfaces under a strongly minifying current transform with a large compensating translation in the
     // source transform: the image coordinates stay small, the partial products in 16.16 do not
-    let (w, h, src_t, ctm) = if rng.chance(0.03) {
+    let (w, h, src_t, ctm) = if rng.chance(0.03) && !far_int {
         // (device pixel px sees image x = px * k + off: the span px * k passes 32768, every sum stays within +-30000)
         let k = *rng.pick(&[64.0f32, 128.]);
         let w2 = (rng.int(36000, 58000) as f32 / k) as i32;
@@ -239,9 +255,18 @@ pub fn gen_case(rng: &mut Rng) -> ImgCase {
     } else {
         (w, h, src_t, ctm)
     };
+    // surfaces wider than any scratch buffer a span blitter may work through in pieces: the image stretched over
+    // the whole width, or repeated along it
+    let (w, h, src_t, ctm) = if rng.chance(0.03) && !far_int {
+        let w2 = *rng.pick(&[257i32, 300, 511, 513, 640, 1025]) + rng.int(0, 40) as i32;
+        let st = if rng.chance(0.5) { Transform::scale(iw as f32 / w2 as f32, 1.) } else { Transform::translation(rng.int(-5, 5) as f32, 0.) };
+        (w2, rng.int(1, 3) as i32, st, Transform::identity())
+    } else {
+        (w, h, src_t, ctm)
+    };
     // a family of its own: the source transform cancels the current transform's linear part, so that
     // pixel -> image space is a pure translation although neither transform is one
-    let (src_t, ctm) = if rng.chance(0.15) {
+    let (src_t, ctm) = if rng.chance(0.15) && !far_int {
         // (also strongly minifying and magnifying current transforms: the image stays the same size on the device)
         let tiny = rng.chance(0.2);
         let s = |rng: &mut Rng| if tiny { *rng.pick(&[1.0f32 / 4096., 1.0 / 8192., 1.0 / 16384., 2048., 1.0 / 1024.]) } else { *rng.pick(&[0.5f32, 2.0, 4.0, 0.25, -1.0, 1.0]) };
